@@ -354,8 +354,10 @@ package starlark
 //@   prop C04 C05 C06
 //@   requires !ht.frozen && ht.itercount == 0
 //@ func hashtable.grow
-//@   prop C04 C05 C06
+//@   prop C04 C05 C06 C12
 //@   requires !ht.frozen && ht.itercount == 0
+//@   invariant 1 freshobj(ht.table) && ht.table != nil && !ht.frozen && ht.itercount == 0
+//@   ensures [C12] rebuilt_in_new_storage: freshobj(ht.table)
 //@ func listExtend
 //@   prop C04 C06
 //@   requires x != nil && !x.frozen && x.itercount == 0
@@ -568,3 +570,24 @@ package starlark
 //@ func UnpackArgs
 //@   prop C08
 //@   bodyensures 1 positional_recorded: gelem(intset.has, defined, rangeindex + 1)
+
+// ---- hashtable local lemmas (C12). The allocation order gives a cheap handle on staleness:
+// the current table's array and every overflow bucket hanging off it are at least as new as
+// the table; anything found in a table that grow() has replaced is older.
+//@ func hashtable.insert
+//@   prop C12
+//@   invariant 1 h != 0 && (!isnil(old(ht.table)) ==> !isnil(ht.table) && rootof(ht.table) >= old(rootof(ht.table))) && (old(!ht.frozen && ht.itercount == 0) ==> !ht.frozen && ht.itercount == 0)
+//@   invariant 2 h != 0 && p != nil && rootof(p) >= rootof(ht.table) && (insert == nil || rootof(insert) >= rootof(ht.table)) && (!isnil(old(ht.table)) ==> !isnil(ht.table) && rootof(ht.table) >= old(rootof(ht.table))) && (old(!ht.frozen && ht.itercount == 0) ==> !ht.frozen && ht.itercount == 0)
+//@   invariant 3 h != 0 && p != nil && rootof(p) >= rootof(ht.table) && (insert == nil || rootof(insert) >= rootof(ht.table)) && (!isnil(old(ht.table)) ==> !isnil(ht.table) && rootof(ht.table) >= old(rootof(ht.table))) && (old(!ht.frozen && ht.itercount == 0) ==> !ht.frozen && ht.itercount == 0)
+//@   assume /p = p.next/ p.next != nil ==> rootof(p.next) >= rootof(ht.table)
+//@   assert /insert.hash = h/ slot_in_current_table: rootof(insert) >= rootof(ht.table)
+//@   assert /insert.hash = h/ nonzero_hash: h != 0
+//@   ensures table_never_older: !isnil(old(ht.table)) ==> !isnil(ht.table) && rootof(ht.table) >= old(rootof(ht.table))
+//@   ensures mutability_kept: old(!ht.frozen && ht.itercount == 0) ==> !ht.frozen && ht.itercount == 0
+// "not found" only after the whole bucket chain has been walked
+//@ func hashtable.lookup
+//@   prop C12
+//@   assert /return None, false, nil .. not found/ whole_chain_scanned: p == nil
+//@ func hashtable.delete
+//@   prop C12
+//@   assert /return None, false, nil .. not found/ whole_chain_scanned: p == nil
